@@ -193,3 +193,65 @@ def run(ctx: Ctx):
                 'scalars and SVD latent coefficients of random rank, grid and batch shape; non-trivial = chain of at least two transforms')
     run_variables(ctx)
     run_datasets(ctx)
+    run_fields_and_pdf(ctx)
+
+
+def run_fields_and_pdf(ctx: Ctx):
+    """(a) field quantities of rank up to 12: latent coefficients must come back in their numeric order; (b) a field with a minmax norm and a
+    scalar-shorthand latent domain decodes to the same field before and after a per-latent domain update; (c) samples drawn from a pdf with
+    a narrow domain stay inside the normalised domain"""
+    from amisc import Component, System, Variable
+    from amisc.variable import VariableList
+    from amisc.compression import SVD
+    from amisc.typing import LATENT_STR_ID
+    from amisc.utils import to_model_dataset, to_surrogate_dataset
+    rng = ctx.rng
+    for n in range(ctx.pick(8, 60)):
+        np.random.seed(ctx.seed * 11 + n)
+        rank = rng.choice([2, 5, 11, 12]); dof = rank + rng.randint(1, 6)
+        coords = np.linspace(0, 1, dof)
+        basis = np.linalg.qr(np.random.rand(dof, rank))[0]
+        data = basis @ (np.random.rand(rank, 3 * rank + 2) * np.arange(rank, 0, -1)[:, None])
+        fld = Variable('T', compression=SVD(rank=rank, coords=coords, data_matrix=data), norm=rng.choice([None, 'minmax(200, 400)']), domain=(-5.0, 5.0))
+        vl = VariableList([fld])
+        lat = np.random.rand(3, rank) * 2 - 1
+        surr = {f'T{LATENT_STR_ID}{i}': lat[:, i] for i in range(rank)}
+        case = {'field_case': n, 'rank': rank, 'dof': dof, 'norm': str([str(t) for t in fld.norm] if fld.norm else None)}
+        ctx.case(case, nontrivial=True, kind=f'field:rank={rank}')
+        try:
+            m1, fc = to_model_dataset(surr, vl, del_latent=True)
+            back, _ = to_surrogate_dataset(m1, vl, del_fields=True, **fc)
+        except Exception as e:
+            ctx.violate('C16:dataset-conversion-raises', f'{type(e).__name__}: {e}', case); continue
+        for k, v in surr.items():
+            if k not in back or not np.allclose(np.asarray(back[k]), v, rtol=1e-7, atol=1e-8):
+                ctx.violate('C16:dataset-roundtrip', f'rank {rank}: latent {k} {v.tolist()} -> field -> {np.asarray(back.get(k)).tolist()}', case); break
+        # time stability of the decoding under a per-latent domain update (what fit() does for coupling field quantities)
+        f_before = np.asarray(m1['T'])
+        fld.update_domain([(-6.0 - i, 6.0 + i) for i in range(rank)])
+        m2, _ = to_model_dataset(surr, vl, del_latent=True)
+        if not np.allclose(np.asarray(m2['T']), f_before, rtol=1e-9, atol=1e-9):
+            ctx.violate('C16:field-reinterpreted-after-domain-update', f'the same latent coefficients reconstruct to a different field after update_domain '
+                        f'(max change {float(np.max(np.abs(np.asarray(m2["T"]) - f_before))):.3g}); norm {case["norm"]}', case)
+    # (c) sampling from the pdf
+    for n in range(ctx.pick(6, 40)):
+        spec = rng.choice([('N(0, 1)', (-0.5, 0.5)), ('N(2, 3)', (1.0, 2.5)), ('U(0, 10)', (4.0, 5.0)), ('LN(0, 1)', (0.5, 2.0))])
+        norm = rng.choice([None, 'minmax', 'linear(2, 1)', 'zscore(1, 2)'])
+        try:
+            v = Variable('q', distribution=spec[0], domain=spec[1], norm=norm)
+        except Exception:
+            continue
+        comp = Component(lambda inputs: {'r': np.asarray(inputs['q'], dtype=float)}, [v], [Variable('r')], name='pdfc', vectorized=True)
+        system = System(comp, name='pdf')
+        np.random.seed(ctx.seed * 13 + n)
+        case = {'pdf_case': n, 'distribution': spec[0], 'domain': spec[1], 'norm': norm}
+        ctx.case(case, nontrivial=True, kind='pdf-sampling')
+        try:
+            xs = np.asarray(system.sample_inputs(400, use_pdf=True)['q'], dtype=float)
+        except Exception as e:
+            ctx.violate('C16:sample_inputs-raises', f'{type(e).__name__}: {e}', case); continue
+        nd = system.inputs().get_domains(norm=True)['q']
+        lo, hi = min(nd), max(nd)
+        out = int(np.sum((xs < lo - 1e-12 * (1 + abs(lo))) | (xs > hi + 1e-12 * (1 + abs(hi)))))
+        if out:
+            ctx.violate('C16:sample-outside-normalised-domain', f'{out} of 400 samples drawn with use_pdf=True lie outside the normalised domain {nd}', case)
